@@ -22,3 +22,4 @@ import ZckModel.Tools
 import ZckModel.Copy
 import ZckModel.Pred.Copy
 import ZckModel.IoFault
+import ZckModel.Threads
